@@ -15,7 +15,7 @@ func init() {
 		Run: runC25,
 		Explanation: "Static decision of the error and ordering structure of filer HTTP writes: (1) ERR-body: a failed read of the request body reaches the error result of uploadReaderToChunks (no success return on the path where the read failed), every spawned chunk upload records its error in the shared error, the wait on all uploads precedes the inspection of that error and every success return; " +
 			"(2) GUARD-commit: the PUT and POST handlers save metadata only on the nil-error edge of the upload, with exactly the chunk list, total size and inline content the upload returned, and a failed metadata write is reported; (3) PROV-offset: each chunk's offset is the running offset captured before its upload is spawned, advanced by the bytes read for that chunk; every byte read passes through the MD5 tee; " +
-			"(4) APPEND-base: an append shifts every new chunk by the file size read before the loop (not modified inside it) and grows the size once by the appended length; (5) RETRY-reader: a chunk upload retried in a loop re-sends the same bytes — the byte reader created outside the loop is only acceptable because the uploader takes its bytes without consuming it. Byte equality and offset arithmetic over all sizes are not decided.",
+			"(4) APPEND-base: an append shifts every new chunk by the file size read before the loop (not modified inside it) and grows the size once by the appended length; (5) RETRY-reader: a chunk upload retried in a loop re-sends the same bytes — the byte reader created outside the loop is only acceptable because the uploader takes its bytes without consuming it. Byte equality and offset arithmetic over all sizes are not decided. Also decided: a worker writes the shared upload error only with a non-nil error.",
 		Assumptions: []string{"bytes.Buffer.ReadFrom reports every reader error except io.EOF"},
 		Trusted:     baseTrusted,
 	})
